@@ -39,6 +39,11 @@ def points(tier):
     for host, cache, payload in itertools.product(('127.0.0.1', '[::1]'), ('cold', 'warm'), ('get',) if tier == 'quick' else PAYLOADS):
         out.append({'host': host, 'cert': 'wrongname', 'insecure': False, 'optout': False, 'cache': cache,
                     'payload': payload, 'packing': 'whole', 'host_header': 'certname'})
+    # a bad origin stays refused on EVERY connection, also towards a client that would accept any certificate
+    # (three connections to the same host, then one under its other name)
+    for host, cert in itertools.product(('origin.test', '127.0.0.1', '[::1]'), ('selfsigned', 'wrongname', 'expired')):
+        out.append({'host': host, 'cert': cert, 'insecure': False, 'optout': False, 'cache': 'warm', 'payload': 'get',
+                    'packing': 'whole', 'gullible_client': True})
     # a host name longer than an X.509 commonName can hold (64): it is named by the subjectAltName like any other
     for cert, insecure, optout, cache in itertools.product(('trusted', 'wrongname', 'selfsigned'), (False, True), (False, 'only'),
                                                            ('cold', 'warm')):
